@@ -332,7 +332,7 @@ func (x *Exec) appendCall(st *State, c *ast.CallExpr) Value {
 		newLen := vc.iadd(ln, vc.idxLit(n))
 		fits := vc.ile(newLen, cp)
 		h := vc.heapOfKind(st, k)[0]
-		oldArr := tSelect(h, ref)
+		oldArr := vc.name(st, "src", tSelect(h, ref))
 		// in place
 		inArr := oldArr
 		for i, v := range vals {
@@ -372,8 +372,8 @@ func (x *Exec) appendCall(st *State, c *ast.CallExpr) Value {
 			st.heaps[k.Name] = tStore(h, nref, narr)
 			return Value{T: fresh, Ty: t}
 		}
-		st.heaps[k.Name] = tIte(fits, tStore(h, ref, inArr), tStore(h, nref, narr))
-		return Value{T: tIte(fits, inPlace, fresh), Ty: t}
+		st.heaps[k.Name] = vc.name(st, k.Name, tIte(fits, tStore(h, ref, inArr), tStore(h, nref, narr)))
+		return Value{T: vc.name(st, "sl", tIte(fits, inPlace, fresh)), Ty: t}
 	}
 	// append(a, b...)
 	if len(c.Args) != 2 {
@@ -387,8 +387,8 @@ func (x *Exec) appendCall(st *State, c *ast.CallExpr) Value {
 	newLen := vc.iadd(ln, bln)
 	fits := vc.ile(newLen, cp)
 	h := vc.heapOfKind(st, k)[0]
-	aArr := tSelect(h, ref)
-	bArr := tSelect(h, bref)
+	aArr := vc.name(st, "src", tSelect(h, ref))
+	bArr := vc.name(st, "src", tSelect(h, bref))
 	nref := vc.allocRef(st)
 	x.vc.n++
 	bv := fmt.Sprintf("k!%d", x.vc.n)
@@ -409,8 +409,8 @@ func (x *Exec) appendCall(st *State, c *ast.CallExpr) Value {
 	st.assume(tImplies(tNot(fits), tAnd(frAx, vc.ile(newLen, ncap), vc.ile(ncap, vc.idxLit(1<<41)))))
 	inPlace := vc.mkSlice(ref, off, newLen, cp)
 	fresh := vc.mkSlice(nref, vc.idxLit(0), newLen, ncap)
-	st.heaps[k.Name] = tIte(fits, tStore(h, ref, inArr), tStore(h, nref, narr))
-	return Value{T: tIte(fits, inPlace, fresh), Ty: t}
+	st.heaps[k.Name] = vc.name(st, k.Name, tIte(fits, tStore(h, ref, inArr), tStore(h, nref, narr)))
+	return Value{T: vc.name(st, "sl", tIte(fits, inPlace, fresh)), Ty: t}
 }
 
 // ---------- closures ----------
